@@ -6,7 +6,9 @@ sys.path.insert(0, os.path.dirname(os.path.abspath(__file__)))
 import vlib, gen_submit
 
 THMS = ["IsalVerif.GenProps.SubmitPrefix.all_canon", "IsalVerif.GenProps.SubmitPrefix.all_count",
-        "IsalVerif.GenProps.SubmitPrefix.submit_prefix_current", "IsalVerif.SubmitC.canon_run",
+        "IsalVerif.GenProps.SubmitPrefix.submit_prefix_current", "IsalVerif.GenProps.SubmitPrefix.all_canon_base",
+        "IsalVerif.GenProps.SubmitPrefix.all_count_base", "IsalVerif.GenProps.SubmitPrefix.base_prefix_current",
+        "IsalVerif.SubmitC.canonBase_run", "IsalVerif.SubmitC.base_prefix_refines", "IsalVerif.SubmitC.canon_run",
         "IsalVerif.SubmitC.canon_run_eq", "IsalVerif.SubmitC.prefix_refines"]
 
 
